@@ -206,4 +206,145 @@ def isoformatText (F : Fields) : Option (List Nat) :=
           ++ [46] ++ (dig9 F.ns).take 6)
   else none
 
+/-! ### reading a text against a format (C13: out-of-range fields are rejected)
+
+  `readText items text` reads `text` as the STRICT rendering grammar of the format: per item the field (a
+  non-empty run of ASCII digits for a numeric token; an English weekday / month name, a time-scale name,
+  `±HH:MM`), then exactly the separators of the item; nothing may remain.  It answers `none` whenever the
+  text is not of that form or the form is ambiguous (a numeric field running into the next numeric field,
+  a letter separator after a name, a field given twice with different values): then nothing is demanded. -/
+
+structure TFields where
+  y : Option Int := none
+  mo : Option Int := none
+  d : Option Int := none
+  h : Option Int := none
+  mi : Option Int := none
+  s : Option Int := none
+  ns : Option Int := none
+  doy : Option Int := none
+  wd : Option Int := none
+  scale : Option String := none
+  off : Option Int := none
+deriving Repr, DecidableEq
+
+def isDig (c : Nat) : Bool := decide (48 ≤ c ∧ c ≤ 57)
+def isLetter (c : Nat) : Bool := decide ((65 ≤ c ∧ c ≤ 90) ∨ (97 ≤ c ∧ c ≤ 122))
+def numericLetter (c : Nat) : Bool := [89, 109, 100, 72, 77, 83, 102, 106].contains c
+
+def digitsValue (ds : List Nat) : Int := ds.foldl (fun (a : Int) (c : Nat) => a * 10 + ((c : Int) - 48)) 0
+
+/-- set a field; `none` if it is already set to another value -/
+def setOnce (old : Option Int) (v : Int) : Option (Option Int) :=
+  match old with
+  | none => some (some v)
+  | some w => if w = v then some (some v) else none
+
+def indexOfName (names : List String) (txt : List Nat) : Option Int :=
+  match (List.range names.length).find? (fun i => codes (names.getD i "") == txt || short (names.getD i "") == txt) with
+  | some i => some (i : Int)
+  | none => none
+
+def scaleNames : List String := ["TAI", "TT", "ET", "TDB", "UTC", "GPST", "GST", "BDT", "QZSST"]
+
+def dropPrefix : List Nat → List Nat → Option (List Nat)
+  | [], t => some t
+  | _ :: _, [] => none
+  | a :: as, b :: bs => if a = b then dropPrefix as bs else none
+
+/-- one field: the updated fields and the rest of the text -/
+def readField (it : SItem) (nextNumeric : Bool) (F : TFields) (t : List Nat) : Option (TFields × List Nat) :=
+  if numericLetter it.letter then
+    let ds := t.takeWhile isDig
+    let r := t.dropWhile isDig
+    if ds.isEmpty || (it.seps.isEmpty && nextNumeric) || ds.length > 18 then none
+    else
+      let v := digitsValue ds
+      if it.letter = 89 then (setOnce F.y v).map (fun x => ({ F with y := x }, r))
+      else if it.letter = 109 then (setOnce F.mo v).map (fun x => ({ F with mo := x }, r))
+      else if it.letter = 100 then (setOnce F.d v).map (fun x => ({ F with d := x }, r))
+      else if it.letter = 72 then (setOnce F.h v).map (fun x => ({ F with h := x }, r))
+      else if it.letter = 77 then (setOnce F.mi v).map (fun x => ({ F with mi := x }, r))
+      else if it.letter = 83 then (setOnce F.s v).map (fun x => ({ F with s := x }, r))
+      else if it.letter = 102 then
+        (if ds.length > 9 then none else (setOnce F.ns (v * 10 ^ (9 - ds.length))).map (fun x => ({ F with ns := x }, r)))
+      else (setOnce F.doy v).map (fun x => ({ F with doy := x }, r))
+  else if it.letter = 65 ∨ it.letter = 97 ∨ it.letter = 66 ∨ it.letter = 98 ∨ it.letter = 84 then
+    let ls := t.takeWhile isLetter
+    let r := t.dropWhile isLetter
+    if (match it.seps.head? with | some c => isLetter c | none => false) then none
+    else if it.letter = 65 ∨ it.letter = 97 then
+      (match indexOfName weekdayNames ls with
+       | some i => (setOnce F.wd i).map (fun x => ({ F with wd := x }, r))
+       | none => none)
+    else if it.letter = 66 ∨ it.letter = 98 then
+      (match indexOfName monthNames ls with
+       | some i => (setOnce F.mo (i + 1)).map (fun x => ({ F with mo := x }, r))
+       | none => none)
+    else
+      (match scaleNames.find? (fun n => codes n == ls) with
+       | some n => if F.scale.isNone ∨ F.scale = some n then some ({ F with scale := some n }, r) else none
+       | none => none)
+  else if it.letter = 122 then
+    match t with
+    | sg :: a :: b :: 58 :: c :: e :: r =>
+      if (sg = 43 ∨ sg = 45) ∧ isDig a ∧ isDig b ∧ isDig c ∧ isDig e ∧ ¬ (it.seps.isEmpty ∧ nextNumeric = true) then
+        (setOnce F.off ((if sg = 45 then -1 else 1) * (digitsValue [a, b] * 60 + digitsValue [c, e]))).map
+          (fun x => ({ F with off := x }, r))
+      else none
+    | _ => none
+  else none
+
+def readTextGo : List SItem → TFields → List Nat → Option TFields
+  | [], F, t => if t.isEmpty then some F else none
+  | it :: rest, F, t =>
+    match readField it (match rest.head? with | some n => numericLetter n.letter || n.letter == 122 | none => false) F t with
+    | some (F', r) =>
+      (match rest with
+       | [] => if r.isEmpty then some F' else none
+       | _ => match dropPrefix it.seps r with
+         | some r' => readTextGo rest F' r'
+         | none => none)
+    | none => none
+
+/-- white space around the text does not count (Unicode White_Space) -/
+def isSpace (c : Nat) : Bool :=
+  decide ((9 ≤ c ∧ c ≤ 13) ∨ c = 32 ∨ c = 133 ∨ c = 160 ∨ c = 5760 ∨ (8192 ≤ c ∧ c ≤ 8202) ∨ c = 8232 ∨ c = 8233
+    ∨ c = 8239 ∨ c = 8287 ∨ c = 12288)
+
+def strip (t : List Nat) : List Nat := ((t.dropWhile isSpace).reverse.dropWhile isSpace).reverse
+
+def readText (items : List SItem) (text : List Nat) : Option TFields :=
+  if items.all (fun it => !it.optional) then readTextGo items {} (strip text) else none
+
+/-- the clause under which the property demands an ERROR for a text with these fields (`none`: nothing is
+    demanded): a date (year, month, day) or an ordinal date (year, day of year) with out-of-range fields in
+    the sense of `Spec.mustReject` (month 13, day beyond the month, hour > 24, minute > 59, second > 60, a leap
+    second where there is none), a day of year outside 1..365/366, or a weekday that is not the weekday of the
+    date.  Hour 24 stays open, as in C08. -/
+def mustRejectText (F : TFields) : Option String :=
+  let h := F.h.getD 0
+  let mi := F.mi.getD 0
+  let s := F.s.getD 0
+  let ns := F.ns.getD 0
+  match F.y, F.doy with
+  | some y, some j =>
+    if j < 1 ∨ j > (if isLeap y then 366 else 365) then some "day_of_year_out_of_range"
+    else if (match F.mo, F.d with | some m, some d => !(validDate ⟨y, m, d⟩) | _, _ => false) then some "invalid_date"
+    else
+      let dt := dateOfDayNumber (dayNumber ⟨y, 1, 1⟩ + j - 1)
+      if mustReject iersLeapDates dt h mi s ns then some "time_out_of_range"
+      else if (match F.wd with | some w => decide (w ≠ dayNumber dt % 7) | none => false) then some "weekday_mismatch"
+      else none
+  | some y, none =>
+    (match F.mo, F.d with
+     | some m, some d =>
+       if mustReject iersLeapDates ⟨y, m, d⟩ h mi s ns then
+         some (if validDate ⟨y, m, d⟩ then "time_out_of_range" else "invalid_date")
+       else if (match F.wd with | some w => decide (w ≠ dayNumber ⟨y, m, d⟩ % 7) | none => false) then
+         some "weekday_mismatch"
+       else none
+     | _, _ => none)
+  | none, _ => none
+
 end Hifi.Spec.Efmt
